@@ -124,6 +124,10 @@ func (r *Value) Pull(ctx context.Context, opts ...ReadOption) <-chan *ValueChang
 		}
 
 		last := currentValue
+		if currentValue != nil {
+			// the subscriber holds the filtered seed, that is what the next value has to be compared with
+			last = filter.FilterClone(currentValue)
+		}
 		for event := range on {
 			change := event.(*ValueChange).filter(filter)
 			if r.equivalence != nil && r.equivalence.Compare(last, change.Value) {
